@@ -90,6 +90,12 @@ def regenerate():
                 txt = POISON % (os.path.basename(script), out[-1500:].replace("*)", "* )"))
                 if not os.path.exists(path) or open(path).read() != txt:
                     open(path, "w").write(txt)
+                # the compiled files of the previous, clean build must not stay loadable
+                for ext in (".vo", ".vos", ".vok", ".glob"):
+                    try:
+                        os.remove(os.path.join(COQ, "gen", name + ext))
+                    except OSError:
+                        pass
             logs.append("GENERATOR FAILED: %s -> poisoned %s" % (os.path.basename(script), outs))
     return "\n".join(logs)
 
